@@ -598,7 +598,7 @@ class Judge:
                     self.disc('C05', 'I-visible', op['i'], f'{loc.slug}: a directory result is published although its run failed', present=sorted(k for k in ls if k.startswith(base))[:6])
         exp = op.get('expect')
         if exp == 'unchanged' and prev is not None:
-            changed = sorted(k for k in set(prev) | set(ls) if (k in prev) != (k in ls) or prev.get(k) != ls.get(k))
+            changed = sorted(k for k in set(prev) | set(ls) if ((k in prev) != (k in ls) or prev.get(k) != ls.get(k)) and not _is_work_path(k))
             files = [k for k in changed if prev.get(k) is not None or ls.get(k) is not None]
             dirs = [k for k in changed if k not in files]
             if files:
@@ -629,6 +629,16 @@ class Judge:
                 continue
             cfgname = _cfgname(self.world['configs'][it.cfg]['name'], op['render'])
             src = self.store.get((op.get('store', 'src'), f'name:{it.slug}:{cfgname}'))
+            if src is not None and src.state == 'indoubt':
+                # the source itself has an interrupted run in its history: whether there is a result to carry over is unknown
+                k = (op['target'], it.D)
+                if k not in self.store:
+                    self.store[k] = Loc(it.kind, it.slug, it.cspec.get('cont_steps', 0))
+                if self.store[k].state != 'complete':
+                    self.store[k].state = 'indoubt'
+                    self.store[k].tainted = True
+                    self.store[k].stage_exact = False
+                continue
             if src is None or src.state != 'complete':
                 continue
             k = (op['target'], it.D)
@@ -1032,6 +1042,8 @@ class Eval:
                 msg = 'computed value does not correspond to the configuration (stale/foreign input or parameter)'
             j.disc(prop, 'I-value', op['i'], f'{name}: {msg}', got=_short(got, 300), expected=_short(exp, 300),
                    loads=[n for (n, _, _) in self.loads], runs=[p[2] for p in self.pred])
+            if loaded_here and j.loc(chain, it).tree:
+                j.disc('C12', 'I-reuse', op['i'], f'{name}: a result stored by release 1.4.0 is not loaded back as the value it was stored from', got=_short(got, 300), expected=_short(exp, 300))
             if prop != 'C01' and not (isinstance(got, dict) and '$canon_error' in got):
                 # whatever the cause: a well-formed value that is not the computation's was handed to the caller
                 j.disc('C01', 'I-value', op['i'], f'{name}: wrong value returned ({msg})', got=_short(got, 300), expected=_short(exp, 300))
